@@ -23,11 +23,16 @@ spec = {
  "time_budget_s": {"quick": 400, "thorough": 3600},
  "units": [{"name": "equal", "pkg": "github.com/ogen-go/ogen/json", "dir": "json", "harness": ["harness_equal.go"],
    "cases": {"quick": [{"entry": "HPair", "args": pairs_q}, {"entry": "HTriple", "args": triples_q}, {"entry": "HBroken", "args": broken_q}],
-             "thorough": [{"entry": "HPair", "args": pairs_t}, {"entry": "HTriple", "args": triples_t}, {"entry": "HBroken", "args": broken_t}]}}],
+             "thorough": [{"entry": "HPair", "args": pairs_t}, {"entry": "HTriple", "args": triples_t}, {"entry": "HBroken", "args": broken_t}]}},
+  {"name": "enum", "pkg": "github.com/ogen-go/ogen/jsonschema", "dir": "jsonschema", "harness": ["harness_enum.go", "harness_rawfields2.go"],
+   "stubs": {"github.com/ogen-go/ogen/jsonschema.getRawSchemaFields": "zzRawSchemaFields"},
+   "cases": {"quick": [{"entry": "HEnumDup", "args": [[a, b, 0] for a in range(3) for b in range(3)] + [[a, b, 0] for a in (3, 4, 5) for b in (3, 4, 5)] + [[0, 1, 1], [3, 4, 1]]}],
+             "thorough": [{"entry": "HEnumDup", "args": [[a, b, t] for t in (0, 1) for a in range(3) for b in range(3)] + [[a, b, t] for t in (0, 1) for a in (3, 4, 5) for b in (3, 4, 5)]}]}}],
  "bounds": {"templates": "31 value templates: null, bool, integers (d, dd, -d), strings (1-2 plain bytes, \\u00HL escape, two-character escapes, empty), arrays (empty, [d], [d,-d], [null], [string], nested, mixed), objects (empty, 1 member, 2 and 3 members with independent symbolic names - so reordered and duplicate names, also a repeated name around a distinct one, are inside -, nested array, null member, string member values in three spellings, object inside object), arrays containing objects incl. two sibling objects (one / two members each, names independent - so a member of one sibling may reappear in the other)",
             "leaves": "every digit, every printable-ASCII string/name byte, every hex spelling of the escape, every choice of whitespace byte (space, tab, LF, CR) at each gap are symbolic",
             "pairs": "quick: all same-kind template pairs plus one cross-kind representative pair per kind pair; thorough: all 31x31 pairs x 4 whitespace variants; triples of same-kind templates for transitivity (at most one three-member object per triple); single-byte corruption for totality"},
  "assumptions": ["sync.Pool (jx.GetDecoder) modelled as always allocating a fresh decoder", "strings restricted to printable ASCII (multi-byte UTF-8 is outside the bound)", "for texts in which two member names of one object coincide only order-independence of the verdict is demanded (RFC 8259 leaves their meaning open)", "malformed texts: totality only"],
+ "enum_clause": "the REAL jsonschema (*Parser).Parse on a schema whose enum holds two or three members built from six shapes (d, dd, -d; one-byte string plain / \\u00HL / empty) with symbolic leaves and whitespace: refused as a duplicate exactly when two members denote the same value, accepted otherwise (getRawSchemaFields stubbed under the engine)",
  "out_of_claim": "every number spelling with '.', 'e' or 'E' (strconv.ParseFloat / big.Rat path) - so 1 vs 1.0 vs 1e0 and integers beyond 2^53 are NOT decided by this check; longer strings, deeper nesting, non-ASCII"
 }
 json.dump(spec, open(os.path.join(os.path.dirname(__file__), "check.json"), "w"), indent=0)
